@@ -402,21 +402,21 @@ class CFG:
             roots = [a]
         out = []
         for r in roots:
-            for x in walk_no_nested(r, include_self=True):
-                if isinstance(x, ast.Name) and isinstance(x.ctx, ast.Load):
-                    out.append(x)
+            out += free_loads(r)
         return out
 
-    def definitely_assigned(self, initial, disabled=None, include_exc=True):
+    def definitely_assigned(self, initial, disabled=None, include_exc=True, gen=None):
         """Forward must-analysis.  Returns dict node id -> frozenset of names
-        definitely bound on entry to the node (None for unreachable nodes)."""
-        reach = self.reachable(self.entry.id, disabled=disabled, include_exc=include_exc)
+        definitely bound on entry to the node (None for unreachable nodes).
+        `gen(node)` may supply the set of facts generated by a node (default:
+        the names it binds)."""
+        gen = gen or self.node_defs
         IN = {n: None for n in range(len(self.nodes))}
         IN[self.entry.id] = frozenset(initial)
         work = [self.entry.id]
         while work:
             a = work.pop()
-            out_base = IN[a] | self.node_defs(self.nodes[a])
+            out_base = IN[a] | gen(self.nodes[a])
             for b, label in self.successors(a, disabled):
                 if not include_exc and label == "exc":
                     continue
@@ -466,6 +466,37 @@ class CFG:
                     if changed:
                         work.append(b)
         return IN
+
+
+def free_loads(node, bound=frozenset()):
+    """Name nodes loaded in `node` that refer to the enclosing function scope:
+    comprehension targets are local to their comprehension, lambda / nested
+    function bodies are not entered."""
+    out = []
+    if isinstance(node, ast.Name):
+        if isinstance(node.ctx, ast.Load) and node.id not in bound:
+            out.append(node)
+        return out
+    if isinstance(node, (ast.FunctionDef, ast.AsyncFunctionDef, ast.ClassDef, ast.Lambda)):
+        return out
+    if isinstance(node, (ast.ListComp, ast.SetComp, ast.GeneratorExp, ast.DictComp)):
+        b = set(bound)
+        for i, g in enumerate(node.generators):
+            out += free_loads(g.iter, frozenset(b) if i else bound)
+            for t in ast.walk(g.target):
+                if isinstance(t, ast.Name):
+                    b.add(t.id)
+            for c in g.ifs:
+                out += free_loads(c, frozenset(b))
+        fb = frozenset(b)
+        if isinstance(node, ast.DictComp):
+            out += free_loads(node.key, fb) + free_loads(node.value, fb)
+        else:
+            out += free_loads(node.elt, fb)
+        return out
+    for c in ast.iter_child_nodes(node):
+        out += free_loads(c, bound)
+    return out
 
 
 def _walrus(a):
